@@ -44,7 +44,18 @@ func runChild(t *testing.T) {
 	say := func(format string, a ...any) {
 		fmt.Fprintf(out, format+"\n", a...)
 	}
+	// host setup (mining, volume, contract formation) can stall on an overloaded machine: bail out and let the parent retry
+	ready := make(chan struct{})
+	go func() {
+		select {
+		case <-ready:
+		case <-time.After(150 * time.Second):
+			say("SETUPTIMEOUT")
+			os.Exit(3)
+		}
+	}()
 	w := newHostWorld(t)
+	close(ready)
 	say("READY")
 	for i, op := range ops {
 		say("B %d", i)
@@ -174,10 +185,10 @@ func runL2(t *testing.T, jobs []l2job) (obs map[int]string, died []string) {
 	}
 	defer os.RemoveAll(dir)
 	pending := jobs
-	restarts := 0
+	restarts, setupFailures := 0, 0
 	for len(pending) > 0 {
 		restarts++
-		if restarts > len(jobs)+8 {
+		if restarts > len(jobs)+16 {
 			for _, j := range pending {
 				obs[j.idx] = "res=badcase why=too_many_restarts"
 			}
@@ -200,14 +211,15 @@ func runL2(t *testing.T, jobs []l2job) (obs map[int]string, died []string) {
 		}
 		waitErr := make(chan error, 1)
 		go func() { waitErr <- cmd.Wait() }()
-		limit := 90*time.Second + time.Duration(len(pending))*4*time.Second
+		limit := 240*time.Second + time.Duration(len(pending))*2*time.Second
 		var werr error
+		timedOut := false
 		select {
 		case werr = <-waitErr:
 		case <-time.After(limit):
 			cmd.Process.Kill()
 			werr = <-waitErr
-			stderr.WriteString("\npanic: harness: child exceeded its time limit\n")
+			timedOut = true
 		}
 		began, ended, ready := -1, map[int]string{}, false
 		if f, err := os.Open(out); err == nil {
@@ -250,14 +262,25 @@ func runL2(t *testing.T, jobs []l2job) (obs map[int]string, died []string) {
 		}
 		site, msg := panicSite(stderr.String())
 		if !ready {
-			// the host never came up: environment / harness problem, report loudly
+			// the host never came up (overloaded machine: mining or syncing timed out): retry, then report loudly
+			setupFailures++
+			if setupFailures <= 5 {
+				time.Sleep(time.Duration(setupFailures) * 2 * time.Second)
+				continue
+			}
 			t.Logf("child failed during host setup:\n%s", tail(stderr.String(), 3000))
 			for _, j := range pending {
 				obs[j.idx] = "res=badcase why=host_setup_failed"
 			}
 			return
 		}
-		if _, fin := ended[began]; began >= 0 && !fin {
+		if _, fin := ended[began]; began >= 0 && !fin && timedOut {
+			// the parent killed a child that made no progress: the running case is a hang
+			obs[pending[began].idx] = "res=hang"
+			pending = pending[began+1:]
+		} else if timedOut {
+			pending = pending[last+1:]
+		} else if began >= 0 && !fin {
 			obs[pending[began].idx] = fmt.Sprintf("res=crash site=%s msg=%s", site, msg)
 			pending = pending[began+1:]
 		} else {
